@@ -537,6 +537,9 @@ func runCursorScenario(c *Ctx, fixed bool, script string) (term string, desc map
 		case "slot.acq.ok", "slot.acq.ctx", "slot.rel":
 			continue
 		default:
+			if qForeignEvent(e.Kind) {
+				continue
+			}
 			bad = "unexpected event " + e.Kind
 		}
 		if lab == "@termwaited" {
